@@ -15,11 +15,20 @@ WORDS = ['a', 'ab', 'b;c', ';', 'abc;', 'x' * 9, '']
 
 
 def gen_plan(rng):
+    if rng.chance(25):
+        return gen_plan_full_window(rng)
+
     items = []
 
     for _ in range(rng.between(1, 6)):
-        if rng.chance(35):
+        r = rng.below(100)
+
+        if r < 25:
             items.append(['seof'])
+        elif r < 40:
+            # a signal: delivered in the stream as an exception raised by
+            # the call that reaches it
+            items.append(['sig'])
         else:
             items.append(['line', rng.choice(WORDS)])
 
@@ -45,16 +54,79 @@ def gen_plan(rng):
                     'latency_ms': 0, 'capacity': 0},
         'mode': 'editor', 'items': items, 'prog': prog,
         'gaps': [rng.below(4) for _ in items],
+        # the window the server advertises = the stream's buffer limit:
+        # small ones make the session pause the channel while data waits
+        'window': 2097152 if any(it[0] == 'sig' for it in items)
+        else rng.choice([8, 16, 64, 2097152]),
+    }
+
+
+def gen_plan_full_window(rng):
+    """No terminal: the client writes exactly one window of data without a
+       separator (the session pauses the channel), sends a signal -- a
+       request, which reaches the stream at once -- and then more lines,
+       which have to wait for the window to re-open"""
+
+    window = rng.choice([8, 16, 64])
+    items = [['raw', window], ['sig']]
+
+    for _ in range(rng.between(1, 3)):
+        items.append(['line', rng.choice(['more', 'a', 'b;c', ''])])
+
+    prog = []
+
+    for _ in range(rng.between(2, 7)):
+        k = rng.weighted([('read', 20), ('exactly', 20), ('line', 30),
+                          ('until', 30)])
+
+        if k == 'read':
+            prog.append(['read', rng.choice([1, 5, 100])])
+        elif k == 'exactly':
+            prog.append(['exactly', rng.choice([1, 4, 12])])
+        else:
+            prog.append([k])
+
+    prog += [['readall'], ['readall']]
+    return {
+        'drbg': rng.below(1 << 30),
+        'profile': {'p_sched': rng.choice([0, 30, 70, 95]),
+                    'p_chunk': rng.choice([10, 50, 90]),
+                    'latency_ms': 0, 'capacity': 0},
+        'mode': 'editor', 'raw': True, 'items': items, 'prog': prog,
+        'gaps': [0] + [rng.below(6) for _ in items[1:]],
+        'window': window,
     }
 
 
 def valid_plan(plan):
     try:
+        if plan.get('raw'):
+            its = plan['items']
+
+            if len(its) < 3 or its[0] != ['raw', plan['window']] or \
+                    its[1] != ['sig'] or plan['window'] not in (8, 16, 64) \
+                    or any(it[0] != 'line' for it in its[2:]) or \
+                    len(plan['gaps']) != len(its) or \
+                    any(it[1] not in ('more', 'a', 'b;c', '')
+                        for it in its[2:]):
+                return False
+
+            for op in plan['prog']:
+                if not op or op[0] not in ('read', 'exactly', 'line',
+                                           'until', 'readall'):
+                    return False
+
+                if op[0] in ('read', 'exactly') and \
+                        (len(op) != 2 or not 1 <= op[1] <= 1000):
+                    return False
+
+            return plan['prog'][-1] == ['readall']
+
         if len(plan['gaps']) != len(plan['items']) or not plan['prog']:
             return False
 
         for it in plan['items']:
-            if it[0] not in ('line', 'seof') or \
+            if it[0] not in ('line', 'seof', 'sig') or \
                     (it[0] == 'line' and (it[1] not in WORDS)):
                 return False
 
@@ -64,6 +136,16 @@ def valid_plan(plan):
 
             if op[0] in ('read', 'exactly') and not 1 <= op[1] <= 1000:
                 return False
+
+        if not 4 <= plan.get('window', 2097152) <= 1 << 30:
+            return False
+
+        # (a signal is a channel request: it overtakes data the channel is
+        # holding back for a paused session, so it is only typed where the
+        # window never fills)
+        if plan.get('window', 2097152) < 100000 and \
+                any(it[0] == 'sig' for it in plan['items']):
+            return False
 
         return plan['prog'][-1] == ['readall']
     except (KeyError, TypeError, IndexError):
@@ -78,8 +160,10 @@ class Model:
         self.q = []
 
         for it in items:
-            if it[0] == 'seof':
-                self.q.append(None)
+            if it[0] == 'raw':
+                self.q.append('x' * it[1])
+            elif it[0] in ('seof', 'sig'):
+                self.q.append((it[0],))
             elif self.q and isinstance(self.q[-1], str):
                 self.q[-1] += it[1] + '\n'
             else:
@@ -88,13 +172,13 @@ class Model:
     def head(self):
         """Text up to the next mark, and what ends it: 'seof' or 'eof'"""
 
-        if self.q and self.q[0] is None:
-            return '', 'seof'
+        if self.q and isinstance(self.q[0], tuple):
+            return '', self.q[0][0]
 
         if not self.q:
             return '', 'eof'
 
-        return self.q[0], ('seof' if len(self.q) > 1 else 'eof')
+        return self.q[0], (self.q[1][0] if len(self.q) > 1 else 'eof')
 
     def take(self, n):
         text = self.q[0]
@@ -106,55 +190,56 @@ class Model:
         return text[:n]
 
     def mark(self):
-        if self.q and self.q[0] is None:
+        if self.q and isinstance(self.q[0], tuple):
             self.q.pop(0)
 
     def expect(self, op):
-        """('ret', text) or ('incomplete', partial)"""
+        """(what the call must give, how much text it consumes, whether it
+           consumes the mark that follows): nothing is consumed here"""
 
         text, end = self.head()
         k = op[0]
+
+        if not text and end == 'sig':
+            # the signal is what the stream holds next: whatever the call
+            return ('signal', 'INT'), 0, True
 
         if k == 'read':
             if text:
                 # up to n units of what is there (any non-empty prefix of
                 # it is a legal short read)
-                return ('prefix', text[:op[1]])
+                return ('prefix', text[:op[1]]), None, False
 
-            self.mark()
-            return ('ret', '')
+            return ('ret', ''), 0, True
 
         if k == 'readall':
             if text:
-                return ('ret', self.take(len(text)))
+                return ('ret', text), len(text), False
 
-            self.mark()
-            return ('ret', '')
+            return ('ret', ''), 0, True
 
         if k == 'exactly':
             if len(text) >= op[1]:
-                return ('ret', self.take(op[1]))
+                return ('ret', text[:op[1]]), op[1], False
 
-            part = self.take(len(text)) if text else ''
-
-            if not part:
-                self.mark()
-
-            return ('incomplete', part)
+            return ('incomplete', text), len(text), not text
 
         sep = '\n' if k == 'line' else ';'
         i = text.find(sep)
 
         if i >= 0:
-            return ('ret', self.take(i + 1))
-
-        part = self.take(len(text)) if text else ''
-
-        if not part:
-            self.mark()
+            return ('ret', text[:i + 1]), i + 1, False
 
         # readline() returns what there is at (soft) EOF
-        return ('ret', part) if k == 'line' else ('incomplete', part)
+        return (('ret', text) if k == 'line' else ('incomplete', text)), \
+            len(text), not text
+
+    def commit(self, n, mark):
+        if n:
+            self.take(n)
+
+        if mark:
+            self.mark()
 
 
 def run_plan(plan, sched_seed=None, sched_replay=None):
@@ -170,7 +255,7 @@ def run_plan(plan, sched_seed=None, sched_replay=None):
         # allowed any non-empty prefix)
 
         for ncall, op in enumerate(plan['prog']):
-            want = model.expect(op)
+            want, used, mark = model.expect(op)
             got = None
 
             try:
@@ -186,6 +271,8 @@ def run_plan(plan, sched_seed=None, sched_replay=None):
                     got = ('ret', await stdin.readuntil(';'))
             except asyncio.IncompleteReadError as exc:
                 got = ('incomplete', exc.partial)
+            except asyncssh.SignalReceived as exc:
+                got = ('signal', exc.signal)
             except (asyncssh.Error, OSError) as exc:
                 got = ('error', repr(exc))
 
@@ -194,9 +281,21 @@ def run_plan(plan, sched_seed=None, sched_replay=None):
             if want[0] == 'prefix':
                 ok = got[0] == 'ret' and 0 < len(got[1]) and \
                     want[1].startswith(got[1])
+                used = len(got[1])
+            elif not ok and op[0] in ('line', 'until') and \
+                    got[0] == ('ret' if op[0] == 'line' else 'incomplete') \
+                    and isinstance(got[1], str) and \
+                    len(got[1]) >= plan['window'] and \
+                    model.head()[0].startswith(got[1]) and \
+                    (';' if op[0] == 'until' else '\n') not in got[1]:
+                # the buffer filled up (reading paused) before a separator
+                # came: the call gives up with what there is, losing nothing
+                ok = True
+                used, mark = len(got[1]), False
+                sim.probes['limit_overrun'] += 1
 
-                if ok:
-                    model.take(len(got[1]))
+            if ok:
+                model.commit(used, mark)
 
             if not ok:
                 world.violation(
@@ -209,6 +308,8 @@ def run_plan(plan, sched_seed=None, sched_replay=None):
             if want == ('incomplete', '') or (want == ('ret', '') and
                                               op[0] != 'readall'):
                 sim.probes['soft_eof_ended_a_call'] += 1
+            elif want[0] == 'signal':
+                sim.probes['signal_in_stream'] += 1
 
         res['done'] = True
         process.exit(0)
@@ -216,19 +317,27 @@ def run_plan(plan, sched_seed=None, sched_replay=None):
     async def main():
         acc = await asyncssh.listen(
             '127.0.0.1', 22, server_factory=lambda: RecServer(world),
-            process_factory=server_process, **server_opts())
+            process_factory=server_process,
+            **server_opts(window=plan.get('window', 2097152)))
         conn = await asyncssh.connect('127.0.0.1', 22, **client_opts())
 
         try:
-            proc = await conn.create_process('cmd', term_type='xterm')
+            proc = await conn.create_process(
+                'cmd', **({} if plan.get('raw') else
+                          dict(term_type='xterm')))
 
             try:
                 for it, gap in zip(plan['items'], plan['gaps']):
                     for _ in range(gap):
                         await sim.pause('typing')
 
-                    proc.stdin.write('\x04' if it[0] == 'seof'
-                                     else it[1] + '\n')
+                    if it[0] == 'sig':
+                        proc.send_signal('INT')
+                    elif it[0] == 'raw':
+                        proc.stdin.write('x' * it[1])
+                    else:
+                        proc.stdin.write('\x04' if it[0] == 'seof'
+                                         else it[1] + '\n')
 
                 proc.stdin.write_eof()
             except BrokenPipeError:
